@@ -13,6 +13,7 @@ use zksync_concurrency::{ctx, io};
 pub use crate::consensus::verif as consensus;
 pub use crate::gossip::verif as gossip;
 pub use crate::mux::verif as mux;
+pub use crate::rpc::verif as rpc;
 
 /// `noise::bytes::Buffer`.
 pub struct ByteBuffer(pub(crate) crate::noise::bytes::Buffer);
@@ -246,5 +247,50 @@ impl<K: std::hash::Hash + Eq + Clone> Pool<K> {
     }
     pub fn current(&self) -> Vec<K> {
         self.0.current().keys().cloned().collect()
+    }
+}
+
+/// C12: the admission glue of a constructed `Network` (built with the public `Network::new`):
+/// the inbound stream runners of both networks on a caller supplied encrypted session
+/// (handshake -> pool insert -> rpc service -> pool remove), and the contents of the four pools.
+pub struct Glue(pub std::sync::Arc<crate::Network>);
+
+impl Glue {
+    /// `gossip::Network::run_inbound_stream`.
+    pub async fn gossip_run_inbound_stream(
+        &self,
+        ctx: &ctx::Ctx,
+        stream: TcpNoise,
+    ) -> anyhow::Result<()> {
+        self.0.gossip.run_inbound_stream(ctx, stream.0).await
+    }
+    /// `consensus::Network::run_inbound_stream`.
+    pub async fn consensus_run_inbound_stream(
+        &self,
+        ctx: &ctx::Ctx,
+        stream: TcpNoise,
+    ) -> anyhow::Result<()> {
+        match &self.0.consensus {
+            Some(c) => c.run_inbound_stream(ctx, stream.0).await,
+            None => anyhow::bail!("this node has no consensus network"),
+        }
+    }
+    pub fn gossip_inbound(&self) -> Vec<zksync_consensus_roles::node::PublicKey> {
+        self.0.gossip.inbound.current().keys().cloned().collect()
+    }
+    pub fn gossip_outbound(&self) -> Vec<zksync_consensus_roles::node::PublicKey> {
+        self.0.gossip.outbound.current().keys().cloned().collect()
+    }
+    pub fn consensus_inbound(&self) -> Vec<zksync_consensus_roles::validator::PublicKey> {
+        match &self.0.consensus {
+            Some(c) => c.inbound.current().keys().cloned().collect(),
+            None => vec![],
+        }
+    }
+    pub fn consensus_outbound(&self) -> Vec<zksync_consensus_roles::validator::PublicKey> {
+        match &self.0.consensus {
+            Some(c) => c.outbound.current().keys().cloned().collect(),
+            None => vec![],
+        }
     }
 }
